@@ -36,9 +36,36 @@ def _root_self_attr(node):
     return None
 
 
+def _aliases(fn):
+    """local names bound (anywhere in the function) to an attribute chain of self: {name: attr}.
+    Flow-insensitive except that a name also assigned something else is dropped when EVERY other
+    assignment precedes... kept simple: a name ever assigned `self.attr...` (no call in the chain) is an
+    alias unless it is also assigned the result of a call/literal (then it may be a copy: not tracked)."""
+    cand, other = {}, set()
+    for node in ast.walk(fn):
+        if isinstance(node, ast.Assign) and len(node.targets) == 1 and isinstance(node.targets[0], ast.Name):
+            nm = node.targets[0].id
+            a = _root_self_attr(node.value) if isinstance(node.value, (ast.Attribute, ast.Subscript)) else None
+            if a is not None:
+                cand[nm] = a
+            else:
+                other.add(nm)
+    return dict((k, v) for k, v in cand.items() if k not in other)
+
+
 def stores_in_function(fn):
-    """[(attr, lineno, how)] for stores into attributes of self inside one function (nested defs included)"""
+    """[(attr, lineno, how)] for stores into attributes of self inside one function (nested defs included);
+    one level of local aliasing (x = self.attr; x.update(..) / x[k] = v) is followed"""
     out = []
+    alias = _aliases(fn)
+
+    def alias_root(node):
+        cur = node
+        while isinstance(cur, (ast.Attribute, ast.Subscript)):
+            cur = cur.value
+        if isinstance(cur, ast.Name) and cur.id in alias:
+            return alias[cur.id]
+        return None
     for node in ast.walk(fn):
         targets = []
         if isinstance(node, ast.Assign):
@@ -59,10 +86,18 @@ def stores_in_function(fn):
                 a = _root_self_attr(t)
                 if a is not None:
                     out.append((a, node.lineno, 'store'))
+                else:
+                    a = alias_root(t)
+                    if a is not None:
+                        out.append((a, node.lineno, 'store through a local alias'))
         if isinstance(node, ast.Call) and isinstance(node.func, ast.Attribute) and node.func.attr in MUTATORS:
             a = _root_self_attr(node.func.value)
             if a is not None:
                 out.append((a, node.lineno, 'call .%s()' % node.func.attr))
+            else:
+                a = alias_root(node.func.value) if not isinstance(node.func.value, ast.Name) else alias.get(node.func.value.id)
+                if a is not None:
+                    out.append((a, node.lineno, 'call .%s() through a local alias' % node.func.attr))
         if isinstance(node, ast.Call) and isinstance(node.func, ast.Name) and node.func.id in ('setattr', 'delattr') \
                 and node.args and isinstance(node.args[0], ast.Name) and node.args[0].id == 'self':
             out.append(('<dynamic>', node.lineno, node.func.id))
